@@ -145,7 +145,15 @@ def run_rebin(case, ctx):
                 f.response = np.array([int(r) for r in resp], dtype=np.int64)   # e.g. a top-hat given as 0/1
                 labels.add('integer_typed_response')
             else:
-                f.response = np.array(resp, dtype=float)
+                # a second filter is built from the same response array (one band shape used at two places): normalising one
+                # of them must not change what the other one does
+                given = np.array(resp, dtype=float)
+                f.response = given
+                twin = Filter()
+                twin.name = 'twin'
+                twin.central_wavelength = 2.5 * u.micron
+                twin.nu = np.array([v / scale for v in fnu]) * un * 3.
+                twin.response = given
         fnu_ref = fnu
         if case['unit'] != 'Hz':
             labels.add('unit_' + case['unit'])
@@ -198,6 +206,15 @@ def run_rebin(case, ctx):
         with must_succeed('Filter.normalize + rebin'):
             f.normalize()
             gn = f.rebin(np.array(snu) * u.Hz)
+        if 'given' in locals():
+            with must_succeed('normalising a second filter built from the same response array'):
+                twin.normalize()
+                gn2 = f.rebin(np.array(snu) * u.Hz)
+            if any(abs(float(a) - float(b)) > 1e-12 * abs(float(b)) + 1e-300 for a, b in zip(gn2.response, gn.response)):
+                fail('after a second filter built from the same response array was normalised, the first filter re-bins '
+                     'differently (sum %r, was %r)' % (float(np.sum(gn2.response)), float(np.sum(gn.response))),
+                     'c06:filters_share_state')
+            labels.add('two_filters_from_one_array')
         cflat = 3.25
         val = float(np.sum(cflat * gn.response))
         if abs(val - cflat) > 1e-9 * cflat:
